@@ -37,10 +37,10 @@ impl<'a> WireFormat<'a> for CAA<'a> {
     where
         Self: Sized,
     {
-        let flag = u8::from_be_bytes(data[*position..*position + 1].try_into()?);
+        let flag = u8::from_be_bytes(data.get(*position..*position + 1).ok_or(crate::SimpleDnsError::InsufficientData)?.try_into()?);
         *position += 1;
         let tag = CharacterString::parse(data, position)?;
-        let value = Cow::Borrowed(&data[*position..]);
+        let value = Cow::Borrowed(data.get(*position..).ok_or(crate::SimpleDnsError::InsufficientData)?);
         *position += value.len();
 
         Ok(Self { flag, tag, value })
